@@ -10,7 +10,7 @@ use vcore::{prop_search, Outcome, Run, Search};
 use wire::*;
 use wtransport::Connection;
 
-const RULE: &str = "case = runtime flavour x role x termination cause in {peer QUIC application close(code, reason), peer close capsule, peer clean FIN of the session stream, local Connection::close, protocol error provoked by the raw peer (DATA on the control stream), idle timeout (relay black hole), all handles dropped} x set of pending operations in separate tasks on 1..4 cloned handles drawn from {accept_uni, accept_bi, receive_datagram, closed, read, write (flow-control blocked), stopped, an opening future} x delay between issuing the calls and raising the cause x with/without a stalled peer stream x backlog of 0..7 datagrams and 0..11 streams of the session the application never picks up (hand-off queues full when the cause fires). Oracle: every pending call and three later calls of each kind complete within the bound with an error from the admissible set of the cause (exact peer code/reason, local protocol error, timeout, or a local close), never success, a hang, a panic or another cause; with all handles dropped the peer sees the connection closed and the endpoint has no open connection. Hook part: generated op sequences over shared_result / bichannel against a set-once / FIFO model. Non-trivial: >= 2 pending operations of different kinds when the cause fires; distinct = distinct case";
+const RULE: &str = "case = runtime flavour x role x termination cause in {peer QUIC application close(code, reason), peer close capsule, peer clean FIN of the session stream, local Connection::close, protocol error provoked by the raw peer (DATA on the control stream), idle timeout (relay black hole), all handles dropped} x set of pending operations in separate tasks on 1..4 cloned handles drawn from {accept_uni, accept_bi, receive_datagram, closed, read, write (flow-control blocked), stopped, an opening future} x delay between issuing the calls and raising the cause x with/without stalled peer streams (stalled inside the preamble, after a complete GREASE frame, after GREASE + one byte, after the type varint of a uni stream, on a GREASE-type uni stream, after the complete preamble) x backlog of 0..7 datagrams and 0..11 streams of the session the application never picks up (hand-off queues full when the cause fires). Oracle: every pending call and three later calls of each kind complete within the bound with an error from the admissible set of the cause (exact peer code/reason, local protocol error, timeout, or a local close), never success, a hang, a panic or another cause; with all handles dropped the peer sees the connection closed and the endpoint has no open connection. Hook part: generated op sequences over shared_result / bichannel against a set-once / FIFO model. Non-trivial: >= 2 pending operations of different kinds when the cause fires; distinct = distinct case";
 
 #[derive(Clone, Debug, Serialize, Deserialize, PartialEq)]
 pub enum Cause {
@@ -44,6 +44,11 @@ pub struct Case {
     /// streams of the session the peer opened before the end beyond what the application accepts
     #[serde(default)]
     pub stream_backlog: u8,
+    /// where the stalled peer streams stall: 0 inside the first byte(s) of the preamble, 1 after a
+    /// complete GREASE frame (bidi) / after the type varint (uni), 2 after a GREASE frame and one
+    /// more byte (bidi) / on a GREASE-type uni stream, 3 after the complete preamble
+    #[serde(default)]
+    pub stall_kind: u8,
 }
 
 fn code_strategy() -> impl Strategy<Value = u64> {
@@ -60,8 +65,8 @@ pub fn case_strategy() -> impl Strategy<Value = Case> {
         1 => Just(Cause::IdleTimeout),
         3 => Just(Cause::HandlesDropped),
     ];
-    (0u8..3, any::<bool>(), cause, any::<u8>(), 1u8..=4, prop_oneof![Just(0u8), Just(3), Just(25)], any::<bool>(), prop_oneof![2 => Just(0u8), 1 => 1u8..10], (prop_oneof![2 => Just(0u8), 1 => 2u8..8], prop_oneof![3 => Just(0u8), 1 => 1u8..12]))
-        .prop_map(|(flavor, wt_is_server, cause, ops, clones, delay_ms, stalled_stream, noise, (dgram_backlog, stream_backlog))| Case { flavor, wt_is_server, cause, ops: if ops == 0 { 0b0000_0111 } else { ops }, clones, delay_ms, stalled_stream, noise, dgram_backlog, stream_backlog })
+    (0u8..3, any::<bool>(), cause, any::<u8>(), 1u8..=4, prop_oneof![Just(0u8), Just(3), Just(25)], any::<bool>(), prop_oneof![2 => Just(0u8), 1 => 1u8..10], (prop_oneof![2 => Just(0u8), 1 => 2u8..8], prop_oneof![3 => Just(0u8), 1 => 1u8..12], 0u8..4))
+        .prop_map(|(flavor, wt_is_server, cause, ops, clones, delay_ms, stalled_stream, noise, (dgram_backlog, stream_backlog, stall_kind))| Case { flavor, wt_is_server, cause, ops: if ops == 0 { 0b0000_0111 } else { ops }, clones, delay_ms, stalled_stream, noise, dgram_backlog, stream_backlog, stall_kind })
 }
 
 #[derive(Default)]
@@ -145,14 +150,36 @@ async fn exec_async(case: Arc<Case>) -> CaseResult {
     let mut raw_held: Vec<Box<dyn std::any::Any + Send>> = Vec::new();
     if case.stalled_stream {
         // a peer stream that stalls inside its preamble
+        let grease = refcodec::enc_frame(refcodec::grease(5), b"grease");
+        let bi_bytes: Vec<u8> = match case.stall_kind % 4 {
+            0 => refcodec::enc_bi_header_wt(session)[..1].to_vec(),
+            1 => grease,
+            2 => {
+                let mut b = grease;
+                b.push(refcodec::enc_bi_header_wt(session)[0]);
+                b
+            }
+            _ => refcodec::enc_bi_header_wt(session),
+        };
+        let uni_bytes: Vec<u8> = match case.stall_kind % 4 {
+            0 => vec![0x40],
+            1 => refcodec::enc_uni_header_wt(session)[..2].to_vec(),
+            2 => {
+                let mut b = refcodec::enc_varint(refcodec::grease(9));
+                b.extend_from_slice(b"ignored");
+                b
+            }
+            _ => refcodec::enc_uni_header_wt(session),
+        };
         if let Ok((mut s, r)) = raw_conn.open_bi().await {
-            let _ = s.write_all(&refcodec::enc_bi_header_wt(session)[..1]).await;
+            let _ = s.write_all(&bi_bytes).await;
             raw_held.push(Box::new((s, r)));
         }
         if let Ok(mut s) = raw_conn.open_uni().await {
-            let _ = s.write_all(&[0x40]).await;
+            let _ = s.write_all(&uni_bytes).await;
             raw_held.push(Box::new(s));
         }
+        flush_acked(&raw_conn, Duration::from_millis(100)).await;
     }
     // streams the pending stream operations work on
     let mut recv_for_read = None;
@@ -366,7 +393,11 @@ async fn exec_async(case: Arc<Case>) -> CaseResult {
         }
         drop(keep);
         drop(raw_held);
-        return CaseResult::Pass { nontrivial: true, labels: vec![if case.stalled_stream { "cause:handles-dropped+stalled" } else { "cause:handles-dropped" }] };
+        let mut labels = vec![if case.stalled_stream { "cause:handles-dropped+stalled" } else { "cause:handles-dropped" }];
+        if case.stalled_stream && matches!(case.stall_kind % 4, 1 | 2) {
+            labels.push("handles-dropped+stalled-after-grease");
+        }
+        return CaseResult::Pass { nontrivial: true, labels };
     }
     // every pending call completes in bounded time
     let bound = Duration::from_secs(if idle { 6 } else { 5 });
@@ -784,7 +815,7 @@ pub fn run(run: &Run) {
         |c| judge(|| exec(c), true, "C09:hang"),
         |c| serde_json::to_value(c).unwrap(),
     );
-    for l in ["cause:peer-quic-close", "cause:peer-capsule", "cause:peer-fin", "cause:local-close", "cause:protocol-error", "cause:idle-timeout", "cause:handles-dropped", "cause:handles-dropped+stalled"] {
+    for l in ["cause:peer-quic-close", "cause:peer-capsule", "cause:peer-fin", "cause:local-close", "cause:protocol-error", "cause:idle-timeout", "cause:handles-dropped", "cause:handles-dropped+stalled", "handles-dropped+stalled-after-grease"] {
         run.essential(l);
     }
 }
